@@ -89,6 +89,15 @@ Definition judge (c : case) : list verdict :=
          match br_partition b with None => true | Some p => (p <? 0) || (zlen (br_batches b) <=? p) end
        | _, _, _ => false end);
     clause "C02_bluegreen_steps_are_gated" (c02_bg_gated c);
+    clause "C10_bluegreen_refuses_supersession"
+      (match rp_sub (rc_status c), rp_prog (rc_status c), rp_phase (rc_status c) with
+       | Some u, Some (PrInRolling, _, _), RpProgressing =>
+         let w := rc_wl c in let sp := rc_spec c in
+         if negb (ob_panic (rc_obs c)) && wl_exists w && wl_consistent w && negb (rs_paused sp) && negb (rs_deleting sp) && negb (rs_disabled sp) &&
+            negb (sempty (su_canary_rev u)) && negb (String.eqb (wl_canary w) (su_canary_rev u)) && negb (wl_in_rollback w)
+         then opt_eqb br_eqb (rc_br c) (ob_br (rc_obs c)) && cursor_eqb (cursor (rc_status c)) (cursor (ob_status (rc_obs c)))
+         else true
+       | _, _, _ => true end);
     clause "C07_quiet_bluegreen_reconcile_is_waiting_for_someone" (negb (in_domain c) || ob_panic (rc_obs c) || c07_quiet_means_waiting_bg c) ].
 
 Definition tag (c : case) : string :=
